@@ -633,6 +633,8 @@ def c12(run):
                              "is called twice: verdict and derived facts must equal the single specification value.")
     run.assumptions = AUTHZ_ASSUME
     authz_check(run, "C12", authz_cfgs(run, [], full=False))
+    # random first-order programs: after Authorize a query and a SECOND Authorize on the same authorizer must agree with the first
+    authz_l3(run, core.build_driver(run.work))
     # engine level: the programs of DatalogRun (recursion, mutual recursion, guards) evaluated with facts and rules
     # presented in a seed-chosen order; every order must give the specification's least fixpoint
     import random
